@@ -4,9 +4,20 @@
 
 package irma
 
+// ASSUMED: the identifier accessors of irmago are functions of the identifier.
+//@ func (irmago.metaObjectIdentifier).Root
+//@   trusted
+//@   pure
+//@ func (irmago.metaObjectIdentifier).String
+//@   trusted
+//@   pure
 //@ func parseSignerAttributes
 //@   prop C20
 //@   call mapupdate #1 requires !strictMode || schemeManager == "pbdf"
+// ... where the scheme manager judged is that of THE ATTRIBUTE BEING TAKEN (every attribute is judged by its own identifier:
+// one disclosure can mix scheme managers)
+//@   call mapupdate #1 requires [each-attribute-judged-by-its-own-scheme-manager] !strictMode || (did(call (irmago.metaObjectIdentifier).Root #1)
+//@        && ret(call (irmago.metaObjectIdentifier).Root #1) == "pbdf" && arg(call (irmago.metaObjectIdentifier).Root #1, 0) == att.Identifier.metaObjectIdentifier)
 
 // The strictness the node is configured with reaches the place where signer attributes are filtered:
 // factory -> Verifier.strictMode -> contractVerifier.strictMode -> parseSignerAttributes.
